@@ -253,7 +253,16 @@ class Tap:
             return v
         o_init, o_exec, o_cancel = self.orig
 
+        import time as _time
+        started = _time.time()
+        subs = [0]
+
         def init(self_, attributes=None, **kw):
+            subs[0] += 1
+            if subs[0] > 1500 or _time.time() - started > 45:
+                # the flip run-away (known finding F16) also shows as an ever growing set of resting orders inside one step: every fill
+                # then costs a quadratic sort in the fast simulator
+                raise RuntimeError('RunawayFills: more than 1500 order submissions or 45 s in one session')
             try:
                 o_init(self_, attributes, **kw)
             except Exception as e:
